@@ -182,13 +182,13 @@ pub fn c01(tier: Tier) -> PropSpec {
         parts: vec![
             Part::new(
                 "small",
-                tier.pick(3000, 60000),
+                tier.pick(40000, 600000),
                 move || sem_case(1, hi),
                 |c: &SemCase, st| c01_check(c, st, false),
             ),
             Part::new(
                 "large",
-                tier.pick(100, 3000),
+                tier.pick(1500, 20000),
                 || {
                     (
                         gen::adf_case(gen::adf_large(10, 40, 8, 5), LabelClass::Alnum),
@@ -268,7 +268,7 @@ pub fn c02(tier: Tier) -> PropSpec {
         exhaustive: false,
         parts: vec![Part::new(
             "small",
-            tier.pick(2500, 40000),
+            tier.pick(30000, 400000),
             move || sem_case(1, hi),
             c02_check,
         )],
@@ -359,7 +359,7 @@ pub fn c03(tier: Tier) -> PropSpec {
         exhaustive: false,
         parts: vec![Part::new(
             "small",
-            tier.pick(2000, 40000),
+            tier.pick(40000, 500000),
             move || sem_case(1, hi),
             c03_check,
         )],
@@ -440,7 +440,7 @@ pub fn c04(tier: Tier) -> PropSpec {
         exhaustive: false,
         parts: vec![Part::new(
             "small",
-            tier.pick(4000, 80000),
+            tier.pick(150000, 2000000),
             move || sem_case(1, hi),
             c04_check,
         )],
@@ -686,7 +686,7 @@ pub fn c05(tier: Tier) -> PropSpec {
         exhaustive: false,
         parts: vec![Part::with_shrink(
             "search",
-            tier.pick(12000, 250000),
+            tier.pick(150000, 2000000),
             300,
             move || {
                 (sem_case(1, hi), heu_strategy(), prop_oneof![Just(NgMode::StableIter), Just(NgMode::StableChannel), Just(NgMode::TwoValChannel)], 0u8..3)
